@@ -17,6 +17,8 @@ PY = "/venv/bin/python"
 def run_one(wt: pathlib.Path, i: int, props):
     diff = wt / f"refactor_{i}.diff"
     if not diff.exists():
+        diff = wt / f"rf_{i}.diff"
+    if not diff.exists():
         return i, None, {}
     tmp = tempfile.mkdtemp(prefix="rf_ev_")
     try:
@@ -49,14 +51,19 @@ def main():
             if status is None:
                 continue
             meta = json.load(open(wt / f"refactor_{i}.json")) if (wt / f"refactor_{i}.json").exists() else {}
+            if not meta and (wt / f"rf_{i}.txt").exists():
+                meta = {"summary": (wt / f"rf_{i}.txt").read_text().strip()[:1500]}
             print(f"=== {wt.name} refactor {i}: {status}; {meta.get('summary', '')[:150]}")
             for p, (rc, l) in out.items():
                 bad += 1
                 print(f"    ALARM {p} exit={rc}: {l}")
             if keep and status == "ok":
-                d = VERIF / "seeded" / "refactorings" / f"{wt.name[3:]}_{i}"
+                d = VERIF / "seeded" / "refactorings" / f"{wt.name.split('_', 1)[1]}_{i}"
                 d.mkdir(parents=True, exist_ok=True)
-                shutil.copy(wt / f"refactor_{i}.diff", d / "patch.diff")
+                src = wt / f"refactor_{i}.diff"
+                shutil.copy(src if src.exists() else wt / f"rf_{i}.diff", d / "patch.diff")
+                if (wt / f"rf_{i}_diff.py").exists():
+                    shutil.copy(wt / f"rf_{i}_diff.py", d / "differential.py")
                 (d / "meta.json").write_text(json.dumps({"kind": "behaviour-preserving refactoring", "summary": meta.get("summary"),
                                                          "why_equivalent": meta.get("why_equivalent"),
                                                          "alarms": {p: {"exit": rc, "report": l} for p, (rc, l) in out.items()}}, indent=1) + "\n")
